@@ -11,7 +11,7 @@
      quest_small q the question fits the wire format (name <= 255 octets)
      cfg_wf c      the ECS / NSID oracle options have the codes 8 / 3
      hdr_agrees    the library decoded ID and opcode from the packet header            *)
-From Sdns Require Import Common.Base Common.GoList Gen.C06 C06.Model C06.WireOpt C06.Run C06.Proofs C06.Proofs_wire.
+From Sdns Require Import Common.Base Common.GoList Gen.C06 C06.Model C06.WireOpt C06.Run C06.Proofs C06.Proofs_wire C06.Proofs_hit.
 Open Scope N_scope.
 
 (* datagram / stream listeners: QR set, the packet's ID and opcode echoed, on every reply *)
@@ -286,3 +286,86 @@ Theorem packet_header_parse :
                            (go_be16 (firstn 2 (skipn 6 pkt))) (go_be16 (firstn 2 (skipn 8 pkt))) (go_be16 (firstn 2 (skipn 10 pkt)))).
 Proof. exact gen_ParseHeader_l. Qed.
 Print Assumptions packet_header_parse.
+
+(* ---- session 4: the cache behind the edns writer (anchors middleware/cache/entry_wire.go,
+   wire.ApplyReply; "AD on cache hits for CD clients") ----
+   [produce p q] is the header of the body a byte-path producer of the cache hands to the writer chain,
+   with the WireInfo.AuthenticatedData that goes with it, for EVERY request header [q]:
+     PEntries [st]            CacheEntry.serveWireInto / serveWireIntoRequest, st = the entry's stored header
+     PEntries (alias :: hops) composeWireChase, the alias entry's stored header then every hop's
+     PCut                     the RFC 8020 cut composer (nxDomainCutEntry.serveWireInto)
+     PFailure                 the RFC 9520 cached-failure composer (serveFailureFromWire)
+   — for EVERY combination of stored header bits. *)
+
+(* the reply header is derived from the request: QR set; ID, opcode, RD, CD echoed; AA cleared *)
+Theorem cache_hit_header_from_request :
+  forall p q h iad,
+    produce p q = Some (h, iad) ->
+    h_qr h = true /\ h_id h = h_id q /\ h_opcode h = h_opcode q /\ h_rd h = h_rd q /\ h_cd h = h_cd q /\ h_aa h = false.
+Proof. exact produce_header. Qed.
+Print Assumptions cache_hit_header_from_request.
+
+(* an entry-based hit keeps RA, TC and the rcode of the (first) stored header *)
+Theorem cache_entry_hit_keeps_stored :
+  forall hops st q h iad,
+    hit_wire (st :: hops) q = Some (h, iad) ->
+    h_ra h = h_ra st /\ h_tc h = h_tc st /\ h_rcode h = h_rcode st.
+Proof. intros hops st q h iad H. destruct (hit_wire_header _ _ _ _ _ H) as (_&_&_&_&_&_&?&?&?). auto. Qed.
+Print Assumptions cache_entry_hit_keeps_stored.
+
+(* the WireInfo the cache passes is truthful about AD — the premise [iad = h_ad (m_hdr d)] of
+   wire_path_agrees *)
+Theorem cache_wire_info_truthful :
+  forall p q h iad, produce p q = Some (h, iad) -> iad = h_ad h.
+Proof. exact produce_truthful. Qed.
+Print Assumptions cache_wire_info_truthful.
+
+(* AD is asserted by an entry-based hit only for a chain validated at every hop, never under CD; the
+   cut composer (which always asserts it) is not consulted for CD clients *)
+Theorem cache_hit_ad_only_when_validated :
+  forall hops q h iad,
+    hit_wire hops q = Some (h, iad) -> h_ad h = true ->
+    h_cd q = false /\ forall st, In st hops -> h_ad st = true.
+Proof. exact hit_wire_ad. Qed.
+Print Assumptions cache_hit_ad_only_when_validated.
+
+Theorem cache_cut_not_for_cd :
+  forall q h iad, produce PCut q = Some (h, iad) -> h_cd q = false /\ h_rcode h = rcode_nxdomain.
+Proof. exact produce_cut_gate. Qed.
+Print Assumptions cache_cut_not_for_cd.
+
+(* end to end on the byte path, no premise on what is stored: a cache hit the edns writer lets
+   through as bytes reaches a client that set CD, or neither DO nor AD, with AD clear; and it echoes
+   QR / ID / opcode *)
+Theorem ad_clear_on_cache_wire_hit :
+  forall tr c q strict p d h iad hasd ede blen r,
+    let w := mk_wstate tr strict q (set_edns0 c q) in
+    client_ver q = 0 ->
+    produce p (m_hdr q) = Some (h, iad) -> m_hdr d = h ->
+    write_wire tr c w d iad hasd ede blen = Some r ->
+    h_cd (m_hdr q) = true \/ (client_do q = false /\ h_ad (m_hdr q) = false) ->
+    h_ad (m_hdr r) = false.
+Proof. exact hit_ad_clear_l. Qed.
+Print Assumptions ad_clear_on_cache_wire_hit.
+
+Theorem qr_id_opcode_echo_cache_wire_hit :
+  forall tr c q strict p d h iad hasd ede blen r,
+    let w := mk_wstate tr strict q (set_edns0 c q) in
+    produce p (m_hdr q) = Some (h, iad) -> m_hdr d = h ->
+    write_wire tr c w d iad hasd ede blen = Some r ->
+    h_qr (m_hdr r) = true /\ h_id (m_hdr r) = h_id (m_hdr q) /\ h_opcode (m_hdr r) = h_opcode (m_hdr q).
+Proof. exact hit_echo_l. Qed.
+Print Assumptions qr_id_opcode_echo_cache_wire_hit.
+
+(* the truthfulness is NECESSARY: ResponseWriter.WriteWire clears AD only when the WireInfo says it is
+   set, so a body with AD = 1 handed over with AuthenticatedData = false reaches a CD = 1 client with
+   AD = 1 (computed witness; seeded change C06-11 makes composeWireChase produce exactly this, and the
+   cache driver shows it on the Go code).  Hardening candidate: clear the bit whenever w.noad. *)
+Theorem wire_info_truth_necessary :
+  let c := mk_cfg None 0 None in
+  let w := mk_wstate UDP true hn_q (set_edns0 c hn_q) in
+  h_cd (m_hdr hn_q) = true /\
+  exists r, write_wire UDP c w hn_d false false None 17 = Some r /\ h_ad (m_hdr r) = true.
+Proof. exact wire_info_truth_necessary_l. Qed.
+Print Assumptions wire_info_truth_necessary.
+
